@@ -482,6 +482,13 @@ func loadChunk(l *Lexer, recordLen uint64) error {
 		// bytes (none at all for an empty chunk), which can leave part of the chunk record -
 		// e.g. the frame of an empty zstd stream - unread. Skip it so that the next record is
 		// read from the right place.
+		// The zstd decoder reads ahead on a goroutine of its own: detach it from the chunk
+		// record first, so that nothing else is reading lr while it is drained.
+		if compression == CompressionZSTD && l.decoders.zstd != nil && l.decompressors[compression] == nil {
+			if err := l.decoders.zstd.Reset(nil); err != nil {
+				return fmt.Errorf("failed to release zstd decoder: %w", err)
+			}
+		}
 		if _, err := io.Copy(io.Discard, lr); err != nil {
 			return fmt.Errorf("failed to skip unread chunk data: %w", err)
 		}
